@@ -112,6 +112,9 @@ def vsign_variants(spec, cases):
             if w[0].startswith('foreach') and len(w) >= 3 and w[-1].isdigit() and int(w[-1]) > 0:
                 hit = True
                 break
+            if w[0] == 'find' and len(w) >= 5 and w[3] != 'null' and getattr(spec, 'vsign_find', False):
+                hit = True      # a find whose visit function accepts some element
+                break
         if not hit:
             continue
         n += 1
@@ -211,6 +214,8 @@ def check_parts(pid, parts, tier, seed, replay=None, main=None):
             cases += clo
             cases += spec.random_cases(tier, seed)
             cases += vsign_variants(spec, cases)
+            if hasattr(spec, 'more_variants'):
+                cases += spec.more_variants(cases, tier, seed)
         for i, c in enumerate(cases):
             c.name = '%s_%d' % (c.name, i)
         if clo_stats:
@@ -247,7 +252,16 @@ def check_parts(pid, parts, tier, seed, replay=None, main=None):
         for c in cases:
             m = model.get(c.name, ['<no model output>'])
             if m and m[-1] == 'precond':
-                tot['skipped'] += 1
+                if getattr(spec, 'oracle_only', None) and spec.oracle_only(c):
+                    # outside the model's domain on purpose (e.g. a re-entrant callback): the implementation's trace
+                    # is judged by the property oracle (and the sanitizers) alone
+                    tot['oracle_only'] = tot.get('oracle_only', 0) + 1
+                    for di, impl in enumerate(impls):
+                        r = spec.oracle(c, impl.get(c.name, ['<no impl output>']))
+                        if r is not None:
+                            oracle_hits.setdefault(r[0], []).append((c, di, r[1]))
+                else:
+                    tot['skipped'] += 1
                 continue
             tot['evaluations'] += 1
             for o in c.ops:
@@ -355,6 +369,8 @@ def check_parts(pid, parts, tier, seed, replay=None, main=None):
         components=[s.component for s in parts],
         samples=samples[:6],
     )
+    if tot.get('oracle_only'):
+        cov['judged_by_oracle_only_outside_model'] = tot['oracle_only']
     if tot['have_closure']:
         cov['states'] = tot['states']
         cov['transitions'] = tot['transitions']
